@@ -8,10 +8,14 @@ from .build import VERIF, Broken
 KNOWN_FINDINGS = os.path.join(VERIF, "known_findings.json")
 
 
+CURRENT = {}  # property id -> the Result being filled (so that a run that breaks half-way can still report what it found)
+
+
 class Result:
     """Collects rule instances (obligations) of one property check."""
 
     def __init__(self, prop):
+        CURRENT[prop] = self
         self.prop = prop
         self.obligations = []  # dicts: rule, key, loc, ok, detail
         self.rules = {}  # rule id -> text
